@@ -359,6 +359,7 @@ pub fn run_c05_parallel(ctx: &mut Ctx) {
         Tier::Thorough => (20_000, 30, 2, 60_000),
     };
     run_prop(ctx, "C05", ParGen { threads: (1, 4), cutoff: true, ..Default::default() }, rc, sb, bound, mr);
+    stress(ctx, "C05");
 }
 
 // ---------------------------------------------------------------------------------------------
@@ -369,6 +370,9 @@ pub struct StressCase {
     pub t: TableDP,
     pub cfg: Config,
     pub threads: usize,
+    /// cutoff firing at this poll (C05 stress)
+    #[serde(default)]
+    pub fire_at: Option<usize>,
 }
 static STRESS_TIMED_OUT: std::sync::atomic::AtomicBool = std::sync::atomic::AtomicBool::new(false);
 fn eval_stress(c: &StressCase, obs: &mut CaseObs, prop: &str) -> Verdict {
@@ -380,9 +384,9 @@ fn eval_stress(c: &StressCase, obs: &mut CaseObs, prop: &str) -> Verdict {
     // the OS owns the schedule here: a run that does not come back is only observable through a
     // wall-clock watchdog, which is reported as inconclusive (exit 2), never as a violation
     let (tx, rx) = std::sync::mpsc::channel();
-    let (t2, o2, cfg2, th) = (c.t.clone(), o.clone(), c.cfg.clone(), c.threads);
+    let (t2, o2, cfg2, th, fire_at) = (c.t.clone(), o.clone(), c.cfg.clone(), c.threads, c.fire_at);
     std::thread::spawn(move || {
-        let out = run_table(&t2, &o2, &cfg2, &RunOpts { threads: Some(th), ..Default::default() });
+        let out = run_table(&t2, &o2, &cfg2, &RunOpts { threads: Some(th), fire_at, ..Default::default() });
         let _ = tx.send(out);
     });
     let out = match rx.recv_timeout(std::time::Duration::from_secs(60)) {
@@ -401,23 +405,45 @@ fn eval_stress(c: &StressCase, obs: &mut CaseObs, prop: &str) -> Verdict {
             }
             Verdict::Pass
         }
+        "C05" => {
+            obs.nontrivial = out.fired && out.lb > isize::MIN && out.ub < isize::MAX;
+            if out.fired {
+                obs.label("stress-cutoff-fired");
+            }
+            let opt_or_neg = o.opt.unwrap_or(isize::MIN);
+            if let Some(p) = &out.panic {
+                return Verdict::Fail(format!("real-thread run panicked: {p}"));
+            }
+            if !(out.lb <= opt_or_neg && opt_or_neg <= out.ub) {
+                return Verdict::Fail(format!("real-thread run cut at poll {:?}: bounds [{}, {}] do not contain the true optimum {:?} [{:?}]", c.fire_at, out.lb, out.ub, o.opt, out));
+            }
+            if let Err(e) = check_solution(&c.t, &out, false, true) {
+                return Verdict::Fail(format!("real-thread run cut at poll {:?}: {e} [{:?}]", c.fire_at, out));
+            }
+            let comp = out.completion.as_ref().unwrap();
+            if comp.is_exact && comp.best_value != o.opt {
+                return Verdict::Fail(format!("real-thread run: is_exact but value {:?} is not the optimum {:?}", comp.best_value, o.opt));
+            }
+            Verdict::Pass
+        }
         _ => match check_exact_run(&o, &out).and_then(|_| check_solution(&c.t, &out, true, true)) {
             Ok(()) => Verdict::Pass,
             Err(e) => Verdict::Fail(format!("real-thread run: {e} [{:?}]", out)),
         },
     }
 }
-fn stress(ctx: &mut Ctx, prop: &'static str) {
+pub fn stress(ctx: &mut Ctx, prop: &'static str) {
     if !ctx.stats.violations.is_empty() {
         return; // already decided by the scheduled part; a real-thread hang would only cost a watchdog period
     }
     // shards run concurrently: keep the number of OS threads reasonable
     let cases = ctx.tier.pick(600, 8_000);
     let p = GenParams { n: (4, 7), b: (2, 4), nd: (2, 3), embed: None, allow_irrelevance: true, allow_potential: true };
-    let strat = (table_strategy(p), config_strategy(ConfigGen { max_width: 2, ..Default::default() }), 2usize..=16).prop_map(|(t, cfg, threads)| StressCase { t, cfg, threads });
+    let with_cut = prop == "C05";
+    let strat = (table_strategy(p), config_strategy(ConfigGen { max_width: 2, ..Default::default() }), 2usize..=16, 1usize..120).prop_map(move |(t, cfg, threads, k)| StressCase { t, cfg, threads, fire_at: if with_cut { Some(k) } else { None } });
     ctx.pt_run("stress-real-threads", cases, strat, |c| serde_json::to_value(c).unwrap(), |c, obs| eval_stress(c, obs, prop));
 }
-fn stress_replay(case: &Value, prop: &str) -> Verdict {
+pub fn stress_replay(case: &Value, prop: &str) -> Verdict {
     match serde_json::from_value::<StressCase>(case.clone()) {
         Ok(c) => {
             // a stress failure is a matter of OS scheduling: try a number of times
